@@ -3,7 +3,10 @@
 (*   Enum  : the case spaces, generated as a tree so that 16 workers share the work:  *)
 (*           token-class sequences, full-vocabulary sequences, single-token mutations *)
 (*           of valid texts, value structures, key strings, cycles, shared nodes,     *)
-(*           strings by shape (unit-class sequences) as operands and as string tokens.*)
+(*           strings by shape (unit-class sequences) as operands and as string tokens,*)
+(*           number tokens by shape (digit runs by length / pattern / binary           *)
+(*           neighbourhood x token forms; mantissa x exponent grid) and the numbers     *)
+(*           they denote as operands.                                                   *)
 (*   Laws  : properties of the reference (JsJSON) itself, INVARIANT on every state.   *)
 (*   Judge : records observed on the real engine, judged against JsJSON.              *)
 EXTENDS JsJSON, Json, IOUtils
@@ -13,6 +16,9 @@ Tier == IF "TIER" \in DOMAIN IOEnv THEN IOEnv.TIER ELSE "quick"
 Quick == Tier = "quick"
 \* optional overrides (benchmarks, mutant hunting): C19_CLS / C19_FULL = maximal sequence lengths
 EnvInt(name, dflt) == IF name \in DOMAIN IOEnv THEN DigitsVal(U(IOEnv[name])) ELSE dflt
+\* C19_ONLY = one family root (tokc tokf vgrp sgrp mgrp ngrp): partial runs for benchmarks (the check refuses to give a verdict)
+Only == IF "C19_ONLY" \in DOMAIN IOEnv THEN IOEnv.C19_ONLY ELSE ""
+Want(f) == Only = "" \/ Only = f
 
 \* ---------------- token sequences ---------------------------------------------------------------
 \* classes 1..6 punctuation, 7 string, 8 number, 9 literal, 10 white space
@@ -83,12 +89,16 @@ QuickMutants == {
   <<65279>>, <<11>>, <<12>>, <<160>>, <<8232>>,
   U("1."), U(".5"), U("1e"), U("+1"), U("0x10"), U("00"), U("-01"), U("-0.0"), U("2.50"), U("0.1"), U("1e21"), U("1e-7"),
   U("123456789012345678901234567890"), U("1e16"), U("True"), U("nul"), U("truee"), U("//c") }
-MutSet == IF Quick THEN QuickMutants ELSE Mutants
+\* quick: the reduced token set on the long bases, EVERY mutant token on the short ones (a scalar root, a two-member object,
+\* an array of containers): no token of the vocabulary exists in the thorough tier only
+ShortBases == {3, 6, 7}
+MutSetFor(bi) == IF Quick /\ bi \notin ShortBases THEN QuickMutants ELSE Mutants
 ReplaceTok(b, j, m) == [b EXCEPT ![j] = m]
 InsertTok(b, j, m) == SubSeq(b, 1, j - 1) \o <<m>> \o SubSeq(b, j, Len(b))
 DeleteTok(b, j) == SubSeq(b, 1, j - 1) \o SubSeq(b, j + 1, Len(b))
 MutationsAt(bi, j) ==
-  LET b == MutBases[bi] IN
+  LET b == MutBases[bi]
+      MutSet == MutSetFor(bi) IN
   {InsertTok(b, j, m) : m \in MutSet}
     \cup (IF j <= Len(b) THEN {ReplaceTok(b, j, m) : m \in MutSet} \cup {DeleteTok(b, j), InsertTok(b, j, b[j])} ELSE {})
     \cup (IF j < Len(b) THEN {[b EXCEPT ![j] = b[j + 1], ![j + 1] = b[j]]} ELSE {})
@@ -224,6 +234,103 @@ StrTokTexts(cs) ==
   IF Len(cs) > StrTokLen THEN {}
   ELSE UNION {LET tok == StrTok(StrUnits(cs, 0), ms) IN {tok, <<123>> \o tok \o <<58>> \o tok \o <<125>>} : ms \in SpellVecs(cs)}
 
+\* ---------------- numbers by shape: number TOKENS of a text (nt) and the numbers they denote as operands (nv) -----
+\* The token tables above hold five number tokens and the mutant set a dozen more; the decoder decides per token SYNTAX
+\* (integer syntax / fraction / exponent go through different conversions) and per MAGNITUDE (how many digits, which side
+\* of 2^53, of a rounding tie, of the notation switch at 1e21, of the largest / smallest double).  This family has
+\*   digit runs  by length x pattern (10^(n-1), 10^n - 1, 10^(n-1) + 1, 1234567890...)  and  2^k + d (every rounding case
+\*               around a power of two: below, exact, tie to even downwards, above the tie, tie upwards ...),
+\*   each run in every token form: integer syntax, ".0", "e0", "E+00", scientific (d.ddd e n-1), "0e-1", a sticky
+\*               fraction 1e-20 behind the run, "0.ddd E n", and the near misses (leading zero, bare point, bare exponent, +),
+\*   a mantissa x exponent-spelling grid (boundaries of the double range, of the notation rules, huge / padded exponents),
+\*   signs and placements (whole text, array element, property value, between white space).
+NtRunPat(n, p) ==
+  CASE p = 1 -> <<49>> \o CvZeros(n - 1)                                              \* 10^(n-1)
+    [] p = 2 -> [j \in 1..n |-> 57]                                                   \* 10^n - 1
+    [] p = 3 -> IF n = 1 THEN <<50>> ELSE <<49>> \o CvZeros(n - 2) \o <<49>>            \* 10^(n-1) + 1
+    [] OTHER -> [j \in 1..n |-> 48 + (j % 10)]                                         \* 1234567890123...
+NtRunBin(k, d) == CvDigitUnits(IF d >= 0 THEN BnAdd(BnPow2(k), BnOfInt(d)) ELSE BnSub(BnPow2(k), BnOfInt(0 - d)))
+NtPats == 1..4
+NtLens == IF Quick THEN (1..24) \cup {30, 100, 309, 310} ELSE (1..40) \cup {100, 200, 308, 309, 310, 400}
+NtBinK == IF Quick THEN {31, 53, 54, 64, 70} ELSE 24..72
+NtBinD == IF Quick THEN -2..7 ELSE -4..9
+\* run specifications: <<"p", length, pattern>> | <<"b", k, d + 10>> | <<"m", mantissa index, 0>> (the grid below)
+NtRunSpecs == {<<"p", n, p>> : n \in NtLens, p \in NtPats} \cup {<<"b", k, d + 10>> : k \in NtBinK, d \in NtBinD}
+NtRun(g) == IF g[1] = "p" THEN NtRunPat(g[2], g[3]) ELSE NtRunBin(g[2], g[3] - 10)
+\* runs next to a boundary get every form in the quick tier: around 2^k, and the lengths around 2^53 (16 digits) .. 1e21 (22)
+NtBoundary(g) == g[1] = "b" \/ (g[2] >= 15 /\ g[2] <= 23)
+NtRot(g) == g[2] + g[3]
+NtGoodForms == 0..7
+NtBadForms == 8..15
+NtForm(D, f) ==
+  LET n == Len(D) IN
+  CASE f = 0 -> D
+    [] f = 1 -> D \o U(".0")
+    [] f = 2 -> D \o U("e0")
+    [] f = 3 -> D \o U("E+00")
+    [] f = 4 -> <<D[1], 46>> \o (IF n = 1 THEN <<48>> ELSE SubSeq(D, 2, n)) \o <<101>> \o DigitsOf(n - 1)
+    [] f = 5 -> D \o U("0e-1")
+    [] f = 6 -> D \o U(".00000000000000000001")
+    [] f = 7 -> U("0.") \o D \o <<69>> \o DigitsOf(n)
+    [] f = 8 -> <<48>> \o D                          \* near misses from here on
+    [] f = 9 -> D \o <<46>>
+    [] f = 10 -> D \o <<101>>
+    [] f = 11 -> <<43>> \o D
+    [] f = 12 -> <<46>> \o D
+    [] f = 13 -> D \o U(".e1")
+    [] f = 14 -> D \o U("E+")
+    [] OTHER -> D \o U("e1.0")
+NtSigned(tok, sg) == IF sg = 1 THEN <<45>> \o tok ELSE tok
+NtPlace(tok, q) == CASE q = 0 -> tok
+                     [] q = 1 -> <<91>> \o tok \o <<93>>
+                     [] q = 2 -> U("{\"n\":") \o tok \o <<125>>
+                     [] OTHER -> <<10, 32>> \o tok \o <<9, 13>>
+\* <<token, placement>> pairs of one run.  thorough: every form x sign x placement.  quick: integer syntax with both signs;
+\* every valid form (boundary runs) or one chosen by rotation (other runs), one near miss by rotation; sign of these by
+\* rotation; each token as the whole text and in one further placement by rotation.
+NtFormsOf(g) == IF ~Quick THEN NtGoodForms \cup NtBadForms
+                ELSE {0, 8 + (NtRot(g) % 8)} \cup (IF NtBoundary(g) THEN NtGoodForms ELSE {1 + (NtRot(g) % 7)})
+NtSignsOf(g, f) == IF ~Quick \/ f = 0 THEN {0, 1} ELSE {(NtRot(g) + f) % 2}
+NtPlacesOf(g, f, sg) == IF ~Quick THEN 0..3 ELSE {0, 1 + ((NtRot(g) + f + sg) % 3)}
+NtRunToks(g) == LET D == NtRun(g) IN {<<NtSigned(NtForm(D, f), sg), f, sg>> : f \in NtFormsOf(g), sg \in {0, 1}}
+\* the mantissa x exponent grid
+NtMants == << U("1"), U("5"), U("9"), U("0"), U("1.5"), U("2.5"), U("4.35"), U("0.1"), U("1.0"), U("10"), U("0.000001"), U("0.0"),
+              U("123456789"), U("1.7976931348623157"), U("1.7976931348623158"), U("1.7976931348623159"),
+              U("4.9406564584124654"), U("2.4703282292062327"), U("2.4703282292062328"), U("2.2250738585072014"),
+              U("2.2250738585072011"), U("9.999999999999999"), U("9.9999999999999999"), U("8.5"), U("1.2345678901234567890123") >>
+NtExps == << <<>>, U("e0"), U("E0"), U("e+0"), U("e-0"), U("e00"), U("e1"), U("E+1"), U("e-1"), U("e2"), U("e5"), U("e-5"), U("e-6"), U("e-7"),
+             U("e6"), U("e15"), U("e16"), U("e20"), U("e21"), U("E21"), U("e+21"), U("e22"), U("e23"), U("e-023"), U("e100"), U("e-100"),
+             U("e307"), U("e308"), U("E+308"), U("e309"), U("e310"), U("e-307"), U("e-308"), U("e-309"), U("e-323"), U("e-324"), U("E-324"),
+             U("e-325"), U("e-326"), U("e400"), U("e-400"), U("e0400"), U("e99999"), U("e-99999"), U("e4294967296"), U("e-4294967296"),
+             U("e99999999999999999999"), U("e-99999999999999999999") >>
+NtMantSpecs == {<<"m", mi, 0>> : mi \in 1..Len(NtMants)}
+\* quick: the first two mantissas with every exponent spelling, every other mantissa with every 6th (shifted by its index:
+\* every mantissa and every spelling occurs, NtGridLaw below); sign and placement by rotation
+NtMantExps(mi) == IF ~Quick \/ mi <= 2 THEN 1..Len(NtExps) ELSE {xi \in 1..Len(NtExps) : (xi + mi) % 6 = 0}
+NtMantToks(g) == {<<NtSigned(NtMants[g[2]] \o NtExps[xi], sg), xi, sg>> : xi \in NtMantExps(g[2]), sg \in {0, 1}}
+NtToks(g) ==
+  IF g[1] = "m" THEN {x \in NtMantToks(g) : ~Quick \/ x[3] = (g[2] + x[2]) % 2}
+  ELSE {x \in NtRunToks(g) : x[3] \in NtSignsOf(g, x[2])}
+NtGroups == NtRunSpecs \cup NtMantSpecs
+NtTexts(g) == UNION {{NtPlace(x[1], q) : q \in (IF g[1] = "m" THEN (IF ~Quick THEN 0..3 ELSE {0, 1 + ((g[2] + x[2] + x[3]) % 3)})
+                                                  ELSE NtPlacesOf(g, x[2], x[3]))} : x \in NtToks(g)}
+\* the numbers the valid tokens of a group denote, as stringify operands: root, and array element / property value (quick: one
+\* of the two, by the parity of the last word)
+NvPlacements(w) ==
+  {VNumW(w)} \cup (IF ~Quick \/ w[4] % 2 = 0 THEN {VArr(<<VNumW(w)>>)} ELSE {})
+             \cup (IF ~Quick \/ w[4] % 2 = 1 THEN {VObj(<<[n |-> KA, v |-> VNumW(w)]>>)} ELSE {})
+NvCases(g) == UNION {LET r == JParse(x[1], {}) IN IF r.o = "value" THEN NvPlacements(r.v.w) ELSE {} : x \in NtToks(g)}
+\* the quick sub-grid contains every class of every dimension (a dropped class fails the specification run, not silently)
+NtGridLaw ==
+  /\ \A mi \in 1..Len(NtMants) : NtMantExps(mi) # {}
+  /\ \A xi \in 1..Len(NtExps) : \E mi \in 1..Len(NtMants) : xi \in NtMantExps(mi)
+  /\ \A f \in NtGoodForms \cup NtBadForms : \A sg \in {0, 1} : \A q \in 0..3 :
+       \E g \in NtRunSpecs : f \in NtFormsOf(g) /\ sg \in NtSignsOf(g, f) /\ q \in NtPlacesOf(g, f, sg)
+  /\ \A g \in NtRunSpecs : 0 \in NtFormsOf(g) /\ NtSignsOf(g, 0) = {0, 1} /\ NtFormsOf(g) \cap NtBadForms # {}
+                             /\ NtFormsOf(g) \cap (NtGoodForms \ {0}) # {}
+  /\ \A g \in NtRunSpecs : NtBoundary(g) => NtGoodForms \subseteq NtFormsOf(g)
+  /\ \A m \in Mutants : \E bi \in 1..Len(MutBases) : m \in MutSetFor(bi)
+
 \* ---------------- Enum: a tree of states, one printed case per leaf state ---------------------------------
 VARIABLES ph, cur, rec_i          \* rec_i: never a name that library operators bind
 vars == <<ph, cur, rec_i>>
@@ -231,12 +338,13 @@ EnumInit == ph = "start" /\ cur = <<>> /\ rec_i = 0
 EnumNext ==
   /\ UNCHANGED rec_i
   /\ \/ /\ ph = "start"
-        /\ \/ (ph' = "tokc" /\ cur' = <<>>)
-           \/ (ph' = "tokf" /\ \E c \in 1..Len(FullToks) : cur' = <<c>>)
-           \/ (ph' = "vgrp" /\ \E g \in ValGroups : cur' = g)
-           \/ (ph' = "sgrp" /\ \E cs \in StrClassSeqs : cur' = cs)
-           \/ (ph' = "sv" /\ \E v \in StrUnitCases : cur' = v)
-           \/ (ph' = "mgrp" /\ \E g \in MutGroups : cur' = g)
+        /\ \/ (Want("tokc") /\ ph' = "tokc" /\ cur' = <<>>)
+           \/ (Want("tokf") /\ ph' = "tokf" /\ \E c \in 1..Len(FullToks) : cur' = <<c>>)
+           \/ (Want("vgrp") /\ ph' = "vgrp" /\ \E g \in ValGroups : cur' = g)
+           \/ (Want("sgrp") /\ ph' = "sgrp" /\ \E cs \in StrClassSeqs : cur' = cs)
+           \/ (Want("sgrp") /\ ph' = "sv" /\ \E v \in StrUnitCases : cur' = v)
+           \/ (Want("mgrp") /\ ph' = "mgrp" /\ \E g \in MutGroups : cur' = g)
+           \/ (Want("ngrp") /\ ph' = "ngrp" /\ \E g \in NtGroups : cur' = g)
      \/ /\ ph = "tokc" /\ Len(cur) < MaxClassLen /\ ph' = ph
         /\ (Len(cur) < ClassFullLen \/ JViablePrefix(ClassText(cur)))
         /\ \E c \in 1..NClasses : cur' = Append(cur, c)
@@ -250,8 +358,11 @@ EnumNext ==
            \/ (ph' = "st" /\ \E t \in StrTokTexts(cur) : cur' = t)
      \/ /\ ph = "mgrp" /\ ph' = "mut"
         /\ \E m \in MutationsAt(cur[1], cur[2]) : cur' = JFlatLong(m)
-IsTextState == ph \in {"tokc", "tokf", "mut", "st"}
-IsValState == ph \in {"val", "sv"}
+     \/ /\ ph = "ngrp"
+        /\ \/ (ph' = "nt" /\ \E t \in NtTexts(cur) : cur' = t)
+           \/ (ph' = "nv" /\ \E v \in NvCases(cur) : cur' = v)
+IsTextState == ph \in {"tokc", "tokf", "mut", "st", "nt"}
+IsValState == ph \in {"val", "sv", "nv"}
 TextOf == CASE ph = "tokc" -> ClassText(cur) [] ph = "tokf" -> FullText(cur) [] OTHER -> cur
 EnumEmit == CASE IsTextState -> PrintT(ToJson([kind |-> "parse", fam |-> ph, t |-> TextOf]))
               [] IsValState -> PrintT(ToJson([kind |-> "str", fam |-> ph, v |-> cur]))
@@ -295,7 +406,7 @@ NumLaw == \A w \in FastNums :
             /\ JPyRepr(w, FALSE) = JNumToString(w)
 LawsHold == CASE IsTextState -> LET txt == TextOf IN TextLaw(txt)
               [] IsValState -> ValueLaw(cur)
-              [] ph = "start" -> NumLaw
+              [] ph = "start" -> NumLaw /\ NtGridLaw
               [] OTHER -> TRUE
 
 \* ---------------- Judge ----------------------------------------------------------------------------------
